@@ -14,7 +14,8 @@ Record VI (c : cfg) (v : vec) (a : avec) : Prop := {
   vi_rep : Rep c v (a_xs a);
   vi_bk : vbk v = a_bk a;
   vi_wf : bk_wf (a_bk a);
-  vi_cap : match acap c (a_bk a) with Some cap => vcap v = cap | None => True end
+  vi_cap : match acap c (a_bk a) with Some cap => vcap v = cap | None => True end;
+  vi_fits : match a_bk a with BStackN n size => stackn_fits n (c_sz c) size = true | _ => True end
 }.
 
 Definition slot_rel (c : cfg) (ov : option vec) (oa : option avec) : Prop :=
@@ -147,7 +148,7 @@ Proof. destruct bk; cbn [acap fixed_backend]; intros H F; try discriminate; exac
 
 Lemma vi_full_true c v a : VI c v a -> full c a = true -> vlen v = vcap v /\ fixed_backend (vbk v).
 Proof.
-  intros [HR Hbk Hwf Hcap] Hf. unfold full in Hf.
+  intros [HR Hbk Hwf Hcap Hfits] Hf. unfold full in Hf.
   destruct (acap c (a_bk a)) as [cap|] eqn:E; [|discriminate].
   apply N.leb_le in Hf. pose proof (rep_len _ _ _ HR). pose proof (rep_cap _ _ _ HR).
   split; [lia|]. rewrite Hbk. eapply acap_fixed; eauto.
@@ -155,7 +156,7 @@ Qed.
 Lemma vi_full_false c v a :
   VI c v a -> full c a = false -> can_take c v 1 -> vlen v < vcap v \/ grow_ok c v (vcap v + 1).
 Proof.
-  intros [HR Hbk Hwf Hcap] Hf Hc. unfold full in Hf.
+  intros [HR Hbk Hwf Hcap Hfits] Hf Hc. unfold full in Hf.
   pose proof (rep_len _ _ _ HR). pose proof (rep_cap _ _ _ HR).
   destruct (acap c (a_bk a)) as [cap|] eqn:E.
   - apply N.leb_gt in Hf. left. lia.
@@ -174,7 +175,7 @@ Lemma vi_after_add c v a v' xs' :
   (fixed_backend (vbk v) -> vlen v < vcap v) ->
   VI c v' (with_xs a xs').
 Proof.
-  intros [HR Hbk Hwf Hcap] HR' Hbk' Hpres Hfx. constructor; cbn [with_xs a_bk a_xs]; auto.
+  intros [HR Hbk Hwf Hcap Hfits] HR' Hbk' Hpres Hfx. constructor; cbn [with_xs a_bk a_xs]; auto.
   - congruence.
   - destruct (acap c (a_bk a)) as [cap|] eqn:E; [|exact I].
     assert (F : fixed_backend (vbk v)) by (rewrite Hbk; eapply acap_fixed; eauto).
@@ -215,7 +216,7 @@ Lemma raw_action_spec c vv a u idx t k :
   | inr p => raw_action c idx (VBytes (enc (szn c) t) k) (vv, u) = Panic p (vv, u)
   end.
 Proof.
-  intros Hwf HV Ht Hc. assert (HV' := HV). destruct HV' as [HR Hbk Hbwf Hcap].
+  intros Hwf HV Ht Hc. assert (HV' := HV). destruct HV' as [HR Hbk Hbwf Hcap Hfits].
   pose proof (rep_len _ _ _ HR) as Hlen. pose proof (rep_cap _ _ _ HR) as Hle.
   unfold put_value, raw_action. destruct idx as [i|].
   - destruct (N.ltb_spec (N.of_nat (length (a_xs a))) i) as [Hoob|Hin].
@@ -304,12 +305,19 @@ Definition adm_reserve (c : cfg) (w : world) (vid : nat) (n : N) : Prop :=
     (grow_ok c vv (vlen vv + n) /\ c_sz c * (vlen vv + n) <= alloc_limit).
 Definition adm_shrink (c : cfg) (w : world) (vid : nat) : Prop :=
   forall vv, get_vec vid w = Some vv -> c_sz c * vcap vv <= alloc_limit.
+(** the contents of vector [v] fit a fresh storage of the same backend kind (always, for a fixed capacity) *)
+Definition adm_clone (c : cfg) (w : world) (v : nat) : Prop :=
+  forall sv, get_vec v w = Some sv ->
+    fixed_backend (vbk sv) \/
+    (vlen sv <= usize_max /\
+     c_sz c * grow_target {| vlen := 0; vcap := 0; vmem := []; vgen := 0; vbk := vbk sv |} (vlen sv) <= alloc_limit).
 Definition admissible (c : cfg) (w : world) (o : op) : Prop :=
   match o with
   | OPush _ v _ | OInsert _ v _ _ => adm_vec c w v
   | OPop _ _ k | ORemove _ _ _ k | OSwapRemove _ _ _ k =>
       match k with KPush d | KIns d _ => adm_vec c w d | _ => True end
-  | ONew _ bk => bk_wf bk
+  | ONew _ bk | OCloneEmptyIn _ _ bk => bk_wf bk
+  | OClone v _ => adm_clone c w v
   | OReserve v n | OReserveExact v n => adm_reserve c w v n
   | OShrinkToFit v | OShrinkTo v _ => adm_shrink c w v
   | _ => True
@@ -391,14 +399,14 @@ Lemma vi_take c vv a k i v' :
   VI c vv a -> Rep c v' (take_result k i (a_xs a)) -> vcap v' = vcap vv -> vbk v' = vbk vv ->
   VI c v' (with_xs a (take_result k i (a_xs a))).
 Proof.
-  intros [HR Hbk Hwf Hcap] HR' Hc Hb. constructor; cbn [with_xs a_bk a_xs]; auto; try congruence.
+  intros [HR Hbk Hwf Hcap Hfits] HR' Hc Hb. constructor; cbn [with_xs a_bk a_xs]; auto; try congruence.
   destruct (acap c (a_bk a)); [congruence|exact I].
 Qed.
 Lemma vi_prefix c vv a i :
   VI c vv a -> (i <= length (a_xs a))%nat ->
   VI c (with_len (N.of_nat i) vv) (with_xs a (firstn i (a_xs a))).
 Proof.
-  intros [HR Hbk Hwf Hcap] Hi. constructor; cbn [with_xs a_bk a_xs with_len vbk vcap]; auto.
+  intros [HR Hbk Hwf Hcap Hfits] Hi. constructor; cbn [with_xs a_bk a_xs with_len vbk vcap]; auto.
   apply rep_prefix; assumption.
 Qed.
 
@@ -793,17 +801,18 @@ Proof.
   intros Hwf.
   assert (Hgen : forall v' u', mem_build c bk (v0, u) = Ok tt (v', u') ->
                  (match acap c bk with Some cap => vcap v' = cap | None => True end) ->
+                 (match bk with BStackN n size => stackn_fits n (c_sz c) size = true | _ => True end) ->
                  VI c v' {| a_bk := bk; a_xs := [] |} /\ same_user u u').
-  { intros v' u' E Hc. destruct (mem_build_rep c bk u v0 Hwf v' u' E) as (HR & Hb & He & Hn & Hf).
+  { intros v' u' E Hc Hft. destruct (mem_build_rep c bk u v0 Hwf v' u' E) as (HR & Hb & He & Hn & Hf).
     split; [constructor; cbn [a_bk a_xs]; auto|]. unfold same_user. auto. }
   destruct bk as [|size|n size| |c0]; cbn [acap] in Hgen.
-  - eexists _, _. split; [reflexivity|]. apply Hgen; [reflexivity|exact I].
-  - eexists _, _. split; [reflexivity|]. apply Hgen; [reflexivity|]. reflexivity.
+  - eexists _, _. split; [reflexivity|]. apply Hgen; [reflexivity|exact I|exact I].
+  - eexists _, _. split; [reflexivity|]. apply Hgen; [reflexivity|reflexivity|exact I].
   - unfold mem_build. destruct (stackn_fits n (c_sz c) size) eqn:Hfit; [|reflexivity].
-    eexists _, _. split; [reflexivity|]. apply Hgen; [|reflexivity].
+    eexists _, _. split; [reflexivity|]. apply Hgen; [|reflexivity|reflexivity].
     unfold mem_build. rewrite Hfit. reflexivity.
-  - eexists _, _. split; [reflexivity|]. apply Hgen; [reflexivity|]. reflexivity.
-  - eexists _, _. split; [reflexivity|]. apply Hgen; [reflexivity|exact I].
+  - eexists _, _. split; [reflexivity|]. apply Hgen; [reflexivity|reflexivity|exact I].
+  - eexists _, _. split; [reflexivity|]. apply Hgen; [reflexivity|exact I|exact I].
 Qed.
 
 (** ** drain inside histories: every range, every consumption pattern *)
@@ -1134,7 +1143,7 @@ Proof.
       constructor.
       * intros n. unfold put_vec, set_a. cbn [wv]. rewrite !slot_set_nth.
         destruct (Nat.eqb_spec n vid) as [->|Hne].
-        -- destruct HV as [HRv Hbk Hbw Hcap]. constructor; cbn [with_xs a_bk a_xs]; auto.
+        -- destruct HV as [HRv Hbk Hbw Hcap Hfits]. constructor; cbn [with_xs a_bk a_xs]; auto.
            ++ unfold vr in Hb'. cbn [with_len vbk] in Hb'. congruence.
            ++ unfold vr in Hc'. cbn [with_len vcap] in Hc'. destruct (acap c (a_bk av)); [congruence|exact I].
         -- rewrite (Ho n Hne). apply HW.
@@ -1192,7 +1201,7 @@ Proof.
   split; [reflexivity|split; [reflexivity|split; [reflexivity|]]]. rewrite N.sub_diag.
   constructor.
   - apply (wrep_put_same c w st vid v' av); [exact HW|exact Hg|].
-    destruct HV as [HR Hbk Hwf Hcap]. constructor; auto; try congruence.
+    destruct HV as [HR Hbk Hwf Hcap Hfits]. constructor; auto; try congruence.
     destruct (acap c (a_bk av)) as [cap|] eqn:Ea; [|exact I].
     rewrite Hc; [exact Hcap|]. rewrite Hbk. eapply acap_fixed; eauto.
   - rewrite wuw_put. lia.
@@ -1273,6 +1282,86 @@ Proof.
       exists v', u'. split; [exact E|]. split; [exact H1|]. split; [exact H3|]. split; [exact H4|]. intros F; contradiction.
 Qed.
 
+Lemma exec_build c w st dst bk v0 r :
+  WRep c w st -> ufuse (wuw w) = None -> bk_wf bk ->
+  sp_new c st (unext (wuw w)) dst bk = Some r ->
+  res_matches c w (match mem_build c bk (v0, wuw w) with
+                   | Ok _ (v, u) => Ok (0, []) (put_vec dst (Some v) u w)
+                   | Panic p (_, u) => Panic p {| wv := wv w; wuw := u |}
+                   | Fault f => Fault f
+                   end) r.
+Proof.
+  intros HW Hfuse Hbw Hr. unfold sp_new in Hr.
+  pose proof (new_vi c bk v0 (wuw w) Hbw) as Hn.
+  assert (Hok : forall v' u', mem_build c bk (v0, wuw w) = Ok tt (v', u') ->
+                VI c v' {| a_bk := bk; a_xs := [] |} -> same_user (wuw w) u' ->
+                r = ok_res [] [] (set_a dst (Some {| a_bk := bk; a_xs := [] |}) st) (unext (wuw w)) ->
+                res_matches c w (match mem_build c bk (v0, wuw w) with
+                   | Ok _ (v, u) => Ok (0, []) (put_vec dst (Some v) u w)
+                   | Panic p (_, u) => Panic p {| wv := wv w; wuw := u |}
+                   | Fault f => Fault f
+                   end) r).
+  { intros v' u' E HV Hsu ->. rewrite E.
+    destruct (same_user_events _ _ Hsu) as (He & Hnx & Hf).
+    cbn [res_matches ok_res s_out s_pk s_ret s_st s_evs s_nx].
+    split; [reflexivity|split; [reflexivity|split; [reflexivity|]]]. rewrite N.sub_diag.
+    constructor.
+    - apply wrep_put; [exact HW|exact HV].
+    - rewrite wuw_put. lia.
+    - rewrite wuw_put. congruence.
+    - rewrite wuw_put. exact He. }
+  destruct bk as [|size|n size| |c0].
+  - destruct Hn as (v' & u' & E & HV & Hsu). injection Hr as <-. exact (Hok v' u' E HV Hsu eq_refl).
+  - destruct Hn as (v' & u' & E & HV & Hsu). injection Hr as <-. exact (Hok v' u' E HV Hsu eq_refl).
+  - destruct (stackn_fits n (c_sz c) size) eqn:Hfit.
+    + destruct Hn as (v' & u' & E & HV & Hsu). injection Hr as <-. exact (Hok v' u' E HV Hsu eq_refl).
+    + injection Hr as <-. rewrite Hn.
+      cbn [res_matches panic_res s_out s_pk s_ret s_st s_evs s_nx].
+      split; [reflexivity|split; [reflexivity|split; [reflexivity|]]]. rewrite N.sub_diag.
+      assert (Hw : {| wv := wv w; wuw := wuw w |} = w) by (destruct w; reflexivity). rewrite Hw.
+      apply step_ok_refl; assumption.
+  - destruct Hn as (v' & u' & E & HV & Hsu). injection Hr as <-. exact (Hok v' u' E HV Hsu eq_refl).
+  - destruct Hn as (v' & u' & E & HV & Hsu). injection Hr as <-. exact (Hok v' u' E HV Hsu eq_refl).
+Qed.
+
+Lemma vi_consistent c v a : VI c v a -> backend_consistent c v.
+Proof.
+  intros [HR Hbk Hwf Hcap Hfits]. unfold backend_consistent. rewrite Hbk.
+  destruct (a_bk a) as [|size|n size| |c0]; cbn [acap] in Hcap; auto.
+Qed.
+
+Lemma exec_clone c w st v dst r :
+  cfg_wf c -> WRep c w st -> ufuse (wuw w) = None ->
+  sp_clone c st (unext (wuw w)) v dst = Some r -> adm_clone c w v ->
+  res_matches c w (exec c (OClone v dst) w) r.
+Proof.
+  intros Hwf HW Hfuse Hr Hadm. unfold sp_clone in Hr.
+  destruct (Nat.eqb dst v); [discriminate|].
+  destruct (get_a v st) as [av|] eqn:Hg; [|discriminate]. injection Hr as <-.
+  destruct (wrep_get c w st v av HW Hg) as (sv & Hgv & HV).
+  pose proof (vi_rep _ _ _ HV) as HR. pose proof (rep_len _ _ _ HR) as Hlen.
+  assert (Hbw : bk_wf (vbk sv)) by (rewrite (vi_bk _ _ _ HV); apply (vi_wf _ _ _ HV)).
+  assert (Hfit : fixed_backend (vbk sv) \/
+                 (N.of_nat (length (a_xs av)) <= usize_max /\
+                  c_sz c * grow_target {| vlen := 0; vcap := 0; vmem := []; vgen := 0; vbk := vbk sv |}
+                             (N.of_nat (length (a_xs av))) <= alloc_limit)).
+  { rewrite <- Hlen. apply (Hadm sv Hgv). }
+  destruct (clone_vec_ok c sv (wuw w) (a_xs av) sv Hwf Hbw (vi_consistent _ _ _ HV) HR Hfuse Hfit)
+    as (v' & u' & E & HR' & Hbk' & Hly & Hn' & Hf' & He' & Hc').
+  cbn [exec]. rewrite (bind_ok _ _ _ _ _ (peek_vec_ok v w sv Hgv)). rewrite E.
+  cbn [res_matches ok_res s_out s_pk s_ret s_st s_evs s_nx].
+  split; [reflexivity|split; [reflexivity|split; [reflexivity|]]].
+  constructor.
+  - apply wrep_put; [exact HW|]. destruct HV as [HRs Hbk Hwfb Hcap Hfits].
+    constructor; cbn [a_bk a_xs]; auto.
+    + congruence.
+    + destruct (acap c (a_bk av)) as [cap|] eqn:Ea; [|exact I].
+      rewrite Hc'; [exact Hcap|]. rewrite Hbk. eapply acap_fixed; eauto.
+  - rewrite wuw_put. rewrite Hn'. lia.
+  - rewrite wuw_put. exact Hf'.
+  - rewrite wuw_put. exact He'.
+Qed.
+
 Lemma exec_refines_step c w st o r :
   cfg_wf c -> WRep c w st -> ufuse (wuw w) = None ->
   spec_step c st (unext (wuw w)) o = Some r -> admissible c w o ->
@@ -1282,32 +1371,7 @@ Proof.
   destruct o; cbn [spec_step] in Hr; try discriminate.
   - (* ONew *)
     cbn [admissible] in Hadm. cbn [exec].
-    pose proof (new_vi c bk {| vlen := 0; vcap := 0; vmem := []; vgen := 0; vbk := bk |} (wuw w) Hadm) as Hn.
-    assert (Hok : forall v' u', mem_build c bk ({| vlen := 0; vcap := 0; vmem := []; vgen := 0; vbk := bk |}, wuw w) = Ok tt (v', u') ->
-                  VI c v' {| a_bk := bk; a_xs := [] |} -> same_user (wuw w) u' ->
-                  r = ok_res [] [] (set_a dst (Some {| a_bk := bk; a_xs := [] |}) st) (unext (wuw w)) ->
-                  res_matches c w (exec c (ONew dst bk) w) r).
-    { intros v' u' E HV Hsu ->. cbn [exec]. rewrite E.
-      destruct (same_user_events _ _ Hsu) as (He & Hnx & Hf).
-      cbn [res_matches ok_res s_out s_pk s_ret s_st s_evs s_nx].
-      split; [reflexivity|split; [reflexivity|split; [reflexivity|]]]. rewrite N.sub_diag.
-      constructor.
-      - apply wrep_put; [exact HW|exact HV].
-      - rewrite wuw_put. lia.
-      - rewrite wuw_put. congruence.
-      - rewrite wuw_put. exact He. }
-    destruct bk as [|size|n size| |c0].
-    + destruct Hn as (v' & u' & E & HV & Hsu). injection Hr as <-. exact (Hok v' u' E HV Hsu eq_refl).
-    + destruct Hn as (v' & u' & E & HV & Hsu). injection Hr as <-. exact (Hok v' u' E HV Hsu eq_refl).
-    + destruct (stackn_fits n (c_sz c) size) eqn:Hfit.
-      * destruct Hn as (v' & u' & E & HV & Hsu). injection Hr as <-. exact (Hok v' u' E HV Hsu eq_refl).
-      * injection Hr as <-. rewrite Hn.
-        cbn [res_matches panic_res s_out s_pk s_ret s_st s_evs s_nx].
-        split; [reflexivity|split; [reflexivity|split; [reflexivity|]]]. rewrite N.sub_diag.
-        assert (Hw : {| wv := wv w; wuw := wuw w |} = w) by (destruct w; reflexivity). rewrite Hw.
-        apply step_ok_refl; assumption.
-    + destruct Hn as (v' & u' & E & HV & Hsu). injection Hr as <-. exact (Hok v' u' E HV Hsu eq_refl).
-    + destruct Hn as (v' & u' & E & HV & Hsu). injection Hr as <-. exact (Hok v' u' E HV Hsu eq_refl).
+    exact (exec_build c w st dst bk _ r HW Hfuse Hadm Hr).
   - (* ODropVec *)
     destruct (get_a v st) as [av|] eqn:Hg; [|discriminate]. injection Hr as <-.
     destruct (wrep_get c w st v av HW Hg) as (vv & Hgv & HV).
@@ -1343,7 +1407,7 @@ Proof.
     cbn [res_matches ok_res s_out s_pk s_ret s_st s_evs s_nx].
     split; [reflexivity|split; [reflexivity|split; [reflexivity|]]]. rewrite N.sub_diag.
     constructor.
-    + apply wrep_put; [exact HW|]. destruct HV as [HR Hbk Hbw Hcap].
+    + apply wrep_put; [exact HW|]. destruct HV as [HR Hbk Hbw Hcap Hfits].
       constructor; cbn [with_xs a_bk a_xs]; auto; try congruence.
       destruct (acap c (a_bk av)); [congruence|exact I].
     + rewrite wuw_put. lia.
@@ -1402,6 +1466,21 @@ Proof.
       apply step_ok_refl; assumption.
   - (* ODrain *)
     exact (exec_drain c w st a v sb eb pat f r Hwf HW Hfuse Hr).
+  - (* OClone *)
+    cbn [admissible] in Hadm. exact (exec_clone c w st v dst r Hwf HW Hfuse Hr Hadm).
+  - (* OCloneEmpty *)
+    destruct (get_a v st) as [av|] eqn:Hg; [|discriminate].
+    destruct (Nat.eqb dst v); [discriminate|].
+    destruct (wrep_get c w st v av HW Hg) as (sv & Hgv & HV).
+    cbn [exec]. rewrite (bind_ok _ _ _ _ _ (peek_vec_ok v w sv Hgv)). rewrite (vi_bk _ _ _ HV).
+    exact (exec_build c w st dst (a_bk av) sv r HW Hfuse (vi_wf _ _ _ HV) Hr).
+  - (* OCloneEmptyIn *)
+    destruct (get_a v st) as [av|] eqn:Hg; [|discriminate].
+    destruct (Nat.eqb dst v); [discriminate|].
+    destruct (wrep_get c w st v av HW Hg) as (sv & Hgv & HV).
+    cbn [admissible] in Hadm.
+    cbn [exec]. rewrite (bind_ok _ _ _ _ _ (peek_vec_ok v w sv Hgv)).
+    exact (exec_build c w st dst bk sv r HW Hfuse Hadm Hr).
   - (* OReserve *)
     cbn [admissible] in Hadm. cbn [exec].
     apply (exec_capacity c w st v (Some n) false r Hwf HW Hfuse Hr Hadm (reserve c n)).
@@ -1443,9 +1522,15 @@ Lemma sp_capacity_nx c st nx v want exact r : sp_capacity c st nx v want exact =
 Proof. unfold sp_capacity. cbv zeta. intros H. crush H; cbn; split; lia. Qed.
 Lemma sp_drain_nx c st nx v sb eb pat f r : sp_drain c st nx v sb eb pat f = Some r -> nx <= s_nx r /\ s_out r < 100.
 Proof. unfold sp_drain. cbv zeta. intros H. crush H; cbn; split; lia. Qed.
+Lemma sp_new_nx c st nx dst bk r : sp_new c st nx dst bk = Some r -> nx <= s_nx r /\ s_out r < 100.
+Proof. unfold sp_new. intros H. crush H; cbn; split; lia. Qed.
+Lemma sp_clone_nx c st nx v dst r : sp_clone c st nx v dst = Some r -> nx <= s_nx r /\ s_out r < 100.
+Proof. unfold sp_clone. cbv zeta. intros H. crush H; cbn; split; lia. Qed.
 Lemma spec_nx_out c st nx o r : spec_step c st nx o = Some r -> nx <= s_nx r /\ s_out r < 100.
 Proof.
   intros H. destruct o; cbn [spec_step] in H; try discriminate;
+    try (apply sp_new_nx in H; exact H); try (apply sp_clone_nx in H; exact H);
+    try (destruct (get_a v st); [destruct (Nat.eqb dst v); [discriminate|apply sp_new_nx in H; exact H]|discriminate]);
     try (apply sp_capacity_nx in H; exact H);
     try (apply sp_drain_nx in H; exact H);
     try (apply sp_take_nx in H; exact H);
@@ -1586,7 +1671,14 @@ Definition admissibleb (c : cfg) (w : world) (o : op) : bool :=
   | OPush _ v _ | OInsert _ v _ _ => adm_vecb c w v
   | OPop _ _ k | ORemove _ _ _ k | OSwapRemove _ _ _ k =>
       match k with KPush d | KIns d _ => adm_vecb c w d | _ => true end
-  | ONew _ bk => bk_wfb bk
+  | ONew _ bk | OCloneEmptyIn _ _ bk => bk_wfb bk
+  | OClone v _ =>
+      match get_vec v w with
+      | Some sv => fixedb (vbk sv)
+                   || ((vlen sv <=? usize_max)
+                       && (c_sz c * grow_target {| vlen := 0; vcap := 0; vmem := []; vgen := 0; vbk := vbk sv |} (vlen sv) <=? alloc_limit))
+      | None => true
+      end
   | OReserve v n | OReserveExact v n =>
       match get_vec v w with
       | Some vv => (vlen vv + n <=? vcap vv) || fixedb (vbk vv) || (usize_max <? vlen vv + n)
@@ -1651,9 +1743,22 @@ Qed.
 Lemma adm_shrinkb_sound c w v :
   match get_vec v w with Some vv => c_sz c * vcap vv <=? alloc_limit | None => true end = true -> adm_shrink c w v.
 Proof. intros H vv Hg. rewrite Hg in H. apply N.leb_le. exact H. Qed.
+Lemma adm_cloneb_sound c w v :
+  match get_vec v w with
+  | Some sv => fixedb (vbk sv)
+               || ((vlen sv <=? usize_max)
+                   && (c_sz c * grow_target {| vlen := 0; vcap := 0; vmem := []; vgen := 0; vbk := vbk sv |} (vlen sv) <=? alloc_limit))
+  | None => true
+  end = true -> adm_clone c w v.
+Proof.
+  intros H sv Hg. rewrite Hg in H. apply orb_prop in H. destruct H as [H|H].
+  - left. apply fixedb_sound. exact H.
+  - right. apply andb_prop in H. destruct H as [H1 H2]. split; apply N.leb_le; assumption.
+Qed.
 Lemma admissibleb_sound c w o : admissibleb c w o = true -> admissible c w o.
 Proof.
   destruct o; cbn [admissibleb admissible]; intros H; try exact I;
+    try (apply adm_cloneb_sound; exact H);
     try (apply adm_vecb_sound; exact H); try (apply bk_wfb_sound; exact H);
     try (apply adm_reserveb_sound; exact H); try (apply adm_shrinkb_sound; exact H);
     destruct k; try exact I; apply adm_vecb_sound; exact H.
@@ -1679,6 +1784,7 @@ Definition ex_ops : list op :=
     OReserve 0 7; OReserveExact 0 20; OShrinkTo 0 3; OShrinkToFit 0; OReserve 1 18446744073709551615;
     OClear Erased 1; ODropVec 2; ODropVec 0;
     ONew 3 BHeap; OPush Erased 3 SWrap; OPush Erased 3 SWrap; OPush Erased 3 SWrap; OPush Erased 3 SWrap; OPush Erased 3 SWrap;
+    OClone 3 4; OCloneEmpty 4 5; OCloneEmptyIn 4 6 (BStackN 2 8); OPush Erased 5 SWrap; ODropVec 4;
     ODrain Typed 3 (BExcluded 0) (BIncluded 3) [(true, KDown); (false, KDrop); (false, KDown)] FinDrop;
     ODrain Erased 3 (BIncluded 5) (BExcluded 2) [] FinDrop;                       (* start > end: panics *)
     ODrain Erased 3 BUnbounded (BIncluded 18446744073709551615) [] FinDrop;       (* end + 1 overflows: panics *)
@@ -1698,6 +1804,7 @@ Example ex_outcomes :
      (2,3,[]); (0,0,[3]); (1,0,[]); (1,0,[]); (0,0,[]); (0,0,[]); (0,0,[]); (0,0,[]); (0,0,[1]); (1,0,[]);
      (0,0,[4]); (2,1,[]); (2,3,[]); (0,0,[]); (0,0,[]); (0,0,[]); (0,0,[]); (2,5,[]); (0,0,[]); (0,0,[]); (0,0,[]);
      (0,0,[]); (0,0,[]); (0,0,[]); (0,0,[]); (0,0,[]); (0,0,[]);
+     (0,0,[]); (0,0,[]); (0,0,[]); (0,0,[]); (0,0,[]);
      (0,0,[3; 1; 10; 2; 10; 1; 12; 1; 1; 11; 0; 11]); (2,4,[]); (2,5,[]);
      (0,0,[2; 1; 9; 1; 1; 13; 0; 13; 0; 0; 0; 0; 0; 0]); (0,0,[])].
 Proof. vm_compute. reflexivity. Qed.
